@@ -257,3 +257,42 @@ Lemma ex_fatal :
   exists tr k' rest,
     burst (Cf 1 2 10 [] []) [Cmd 7 0] [Ev [Dg rc_cpu 0 0] 1] conn0 = (tr, RaisedFatal rc_cpu (Some 7), k', rest).
 Proof. eexists. eexists. eexists. vm_compute. reflexivity. Qed.
+
+(* two calls on one connection: the first command's request is answered late; the command is retransmitted and
+   completed by the reply to the retransmission; the late reply to the FIRST transmission arrives during the
+   second call (whose commands use the following sequence numbers) and is ignored there.  The history handed to
+   the second call is the non-empty trace of the first. *)
+Definition ex2_cf1 : config := Cf 1 2 10 [] [].
+Definition ex2_cf2 : config := Cf 2 2 10 [] [].
+Definition ex2_cmds1 : list cmd := [Cmd 0 0].
+Definition ex2_cmds2 : list cmd := [Cmd 1 0; Cmd 2 0].
+Definition ex2_events1 : list event := [Ev [] 11; Ev [Dg 128 0 1] 12; Ev [] 13].
+Definition ex2_events2 : list event := [Ev [Dg 128 0 0; Dg 128 1 2] 14; Ev [Dg 128 2 3] 15; Ev [] 16].
+
+Lemma ex_two_calls :
+  exists tr1 k1 rest1 tr2 k2 rest2,
+    burst ex2_cf1 ex2_cmds1 ex2_events1 conn0 = (tr1, Returned, k1, rest1) /\
+    burst ex2_cf2 ex2_cmds2 ex2_events2 k1 = (tr2, Returned, k2, rest2) /\
+    config_ok ex2_cf2 /\ NoDup (ids ex2_cmds2) /\
+    history_ok tr1 k1 ex2_cmds2 /\ In (OSend 0 0 0 0) tr1 /\ In (OSend 1 0 0 11) tr1 /\
+    causal (tr1 ++ tr2) /\ fresh (tr1 ++ tr2) /\
+    (* the reply to transmission 0 (first call) is received in the second call *)
+    In (ORecv (Dg 128 0 0)) tr2 /\ ~ In (ORecv (Dg 128 0 0)) tr1.
+Proof.
+  eexists. eexists. eexists. eexists. eexists. eexists.
+  split; [vm_compute; reflexivity|].
+  split; [vm_compute; reflexivity|].
+  split; [unfold config_ok; cbn; lia|].
+  split; [cbn; repeat constructor; cbn; intuition lia|].
+  split.
+  { intros tx c s t Hin. cbn in Hin.
+    repeat (destruct Hin as [Hin|Hin];
+            [first [discriminate Hin
+                   |inversion Hin; subst; split; [cbn; lia|unfold ids, ex2_cmds2; cbn; intros [H|[H|[]]]; discriminate H]]|]).
+    contradiction. }
+  split; [cbn; tauto|]. split; [cbn; tauto|].
+  split; [apply causalb_causal; vm_compute; reflexivity|].
+  split; [apply freshb_fresh; vm_compute; reflexivity|].
+  split; [cbn; tauto|].
+  intros Hin. cbn in Hin. repeat (destruct Hin as [Hin|Hin]; [discriminate Hin|]). contradiction.
+Qed.
